@@ -4,22 +4,8 @@ Expected statement skeletons of the image code the C20 model transcribes by hand
 -/
 namespace VaxisModel.Lemmas.ImageFlowExpected
 
-def kittyResizeCell : List String := ["cellPixW, cellPixH := k.vx.cellPixelSize()",
-  "img := resizeImage(k.img, w, h, cellPixW, cellPixH)",
-  "k.w = max.X / cellPixW",
-  "if max.X%cellPixW != 0 { k.w += 1 }",
-  "k.h = max.Y / cellPixH",
-  "if max.Y%cellPixH != 0 { k.h += 1 }"]
-
 def kittyResizeUpload : List String := ["atomicStore(&k.uploaded, false)",
   "for buf.Len() > 0 { n, err := buf.Read(b) if err == io.EOF { break } m := 1 if buf.Len() == 0 { m = 0 } fmt.Fprintf(k.buf, \"\\x1B_Gf=100,i=%d,m=%d;%s\\x1B\\\\\", k.id, m, string(b[:n])) }"]
-
-def sixelResizeCell : List String := ["cellPixW, cellPixH := s.vx.cellPixelSize()",
-  "img := resizeImage(s.img, w, h, cellPixW, cellPixH)",
-  "s.w = max.X / cellPixW",
-  "if max.X%cellPixW != 0 { s.w += 1 }",
-  "s.h = max.Y / cellPixH",
-  "if max.Y%cellPixH != 0 { s.h += 1 }"]
 
 def kittyWriteFunc : List String := ["if !atomicLoad(&k.uploaded) { w.Write(k.buf.Bytes()) atomicStore(&k.uploaded, true) k.buf.Reset() }",
   "fmt.Fprintf(w, \"\\x1B_Ga=p,i=%d,p=%d,C=1\\x1B\\\\\", k.id, pid)"]
